@@ -278,8 +278,28 @@ fn de_all(ty: &DynType, json_text: &str, smile: &[u8], orig: &DynVal) -> Value {
     Value::Object(out)
 }
 
+/// a value whose serialization fails after part of it was written
+struct FailsMidway;
+impl serde::Serialize for FailsMidway {
+    fn serialize<S: serde::Serializer>(&self, s: S) -> Result<S::Ok, S::Error> {
+        use serde::ser::SerializeStruct;
+        let mut st = s.serialize_struct("FailsMidway", 2)?;
+        st.serialize_field("written", &vec![1, 2, 3])?;
+        Err(serde::ser::Error::custom("harness: deliberate failure after a field was written"))
+    }
+}
+
 fn ser_all(val: &DynVal) -> Result<(String, String, Vec<u8>, Value), String> {
     use conjure_serde::{json as cj, smile as cs};
+    // history: every entry point first sees a serialization that fails midway (the next one must start from scratch)
+    let _ = cj::to_string(&FailsMidway);
+    let _ = cj::to_vec(&FailsMidway);
+    let _ = cs::to_vec(&FailsMidway);
+    {
+        let mut sink = vec![];
+        let _ = cj::to_writer(&mut sink, &FailsMidway);
+        let _ = cs::to_writer(&mut sink, &FailsMidway);
+    }
     let compact = cj::to_string(val).map_err(|e| format!("json: {e}"))?;
     let via_vec = String::from_utf8(cj::to_vec(val).map_err(|e| format!("json vec: {e}"))?).map_err(|e| e.to_string())?;
     let mut w = vec![];
@@ -472,6 +492,17 @@ fn c05_case(case: &Value) -> Result<Value, String> {
         run!("smile_server_mut_slice", cs::ServerDeserializer::from_mut_slice(&mut b));
     }
     fn_entry_points(&ty, &json_text, &smile, &val, &mut out);
+    // the same document with the undeclared keys spelled with \\uXXXX escapes
+    let mut esc_text = json_text.clone();
+    for n in &names {
+        let plain = format!("{}:", serde_json::to_string(n).unwrap());
+        let escaped = format!("\"{}\":", n.chars().map(|c| format!("\\u{:04x}", c as u32)).collect::<String>());
+        esc_text = esc_text.replace(&plain, &escaped);
+    }
+    run!("json_server_str_esckey", cj::ServerDeserializer::from_str(&esc_text));
+    run!("json_server_slice_esckey", cj::ServerDeserializer::from_slice(esc_text.as_bytes()));
+    run!("json_client_str_esckey", cj::ClientDeserializer::from_str(&esc_text));
+    run!("json_client_reader_esckey", cj::ClientDeserializer::from_reader(esc_text.as_bytes()));
     Ok(json!({"doc": json_text, "results": Value::Object(out)}))
 }
 
